@@ -222,7 +222,7 @@ class ConvSim(WorldBase):
         for _ in range(g.randint(3, 8)):
             depth = g.randint(1, 4)
             dims = [g.randint(1, 3) for _ in range(depth)]
-            default = g.choice([0, 0, 0, 5])
+            default = g.choice([0, 0, 0, 5, -1, 2.5, None])
             kind = g.choice(["rand", "rand", "alldef", "plane", "full"])
             dens = {"rand": g.choice([0.2, 0.6]), "alldef": 0.0, "plane": 0.7, "full": 1.0}[kind]
             fl = g.random() < 0.25
@@ -234,7 +234,7 @@ class ConvSim(WorldBase):
                         if g.random() < dens:
                             self.uniq += 1
                             v = self.uniq + (0.5 if fl else 0)
-                            if default != 0 and g.random() < 0.3:
+                            if default != 0 and default is not None and g.random() < 0.3 or default is None and g.random() < 0.2:
                                 v = 0            # a literal zero is an ordinary value when the empty value is not 0
                             out.append(v if v != default else v + 1)
                         else:
